@@ -23,6 +23,9 @@ C05ReasonsWith(e, docs, T(_, _, _)) ==
                exp == BacklinksWith(docs, k, T)
            IN  {<<"missing-backlink", k, p>> : p \in exp \ obs} \cup {<<"spurious-backlink", k, p>> : p \in obs \ exp}
            : k \in DOMAIN docs}
+    \* find-references of the language server lists exactly the references of the graph (recorded for every 8th history)
+    \cup (IF "lsp_references_differ" \in DOMAIN e /\ e.lsp_references_differ # <<>>
+          THEN {<<"server-references-differ-from-graph", e.lsp_references_differ>>} ELSE {})
 
 LinkOK(docs, k, o, x) ==
     /\ o.kind = x.kind
